@@ -137,6 +137,10 @@ def wild_atoms() -> List[tuple]:
         ("byteskey", lambda: {b"k": 1}),
         ("mixedkeys", lambda: {"a": "b", 1: 2}),
         ("hugekey", lambda: {10 ** 5000: 1}),
+        # several keys of mutually unorderable classes at one level (the error list sorts the children keys)
+        ("oddkeys2", lambda: {None: 1, 2.5: 2}),
+        ("oddkeys3", lambda: {b"k": 1, (1,): 2, None: 3, 1.5: 4}),
+        ("oddkeys_mixed", lambda: {None: 1, "a": 2, 3: 4, 2.5: 5, (1, 2): 6}),
         ("mixedkeys_bad", lambda: {"a": [], 1: {}}),
         ("deeplist", lambda: deep_list(60)),
         ("listlist", lambda: [[]]),
